@@ -78,6 +78,22 @@ BREAK = [
     ("csv-line-offset", CSVIO, "field_name, i + 2", "field_name, i + 1", {"C17": "error-line"}),
     ("netcdf-union-mask-dropped", NCIO, "            for arr in arrays[1:]:\n                mask |= arr.mask\n", "", {"C18": "union-mask"}),
     ("output-declaration-removed", CSVIO, "    output = params.BooleanParameter()\n\n    def execute(self, **kwargs):\n        commands = kwargs[\"OutFieldNames\"]", "    def execute(self, **kwargs):\n        commands = kwargs[\"OutFieldNames\"]", {"C12": "EEMSWrite::declares-output"}),
+    # ---- rules added in the second and third seeding rounds (each keeps a positive example alive)
+    ("validation-attribute-recursion", B, '    def execute(self, **kwargs):\n        return kwargs["InFieldName"].result.copy()', '    @property\n    def is_fuzzy(self):\n        source = self.program.commands.get(self.get_argument_value("InFieldName"))\n        return getattr(source, "is_fuzzy", False)\n\n    def execute(self, **kwargs):\n        return kwargs["InFieldName"].result.copy()', {"C14": "computed(is_fuzzy)"}),
+    ("handler-reads-missing-attribute", CMD, "                if isinstance(exc, MPilotError):\n                    raise", "                if isinstance(exc, MPilotError):\n                    if exc.lineno is None:\n                        exc.lineno = self.lineno\n                    raise", {"C13": "handler(exc).lineno"}),
+    ("source-stripped-before-lexing", PSR, "return self.parser.parse(source, lexer=self.lexer, tracking=True)", "return self.parser.parse(source.strip(), lexer=self.lexer, tracking=True)", {"C11": "text-passed-on-unchanged"}),
+    ("clamp-between-thresholds", F, "        result += y1\n\n        return result", "        result += y1\n\n        return insure_fuzzy(result, y2, y1)", {"C08": "clamp-bounds-ordered"}),
+    ("p_error-indexes-lines", PSR, '        if p:\n            raise SyntaxError("Syntax error', '        if p:\n            line = self.lexer.lexdata.split("\\n")[p.lineno - 1]\n            raise SyntaxError(line + "Syntax error', {"C13": "no-partial-operation", "C10": "no-partial-operation"}),
+    ("list-cleaned-in-place", PAR, "        return [\n            self.value_type.clean(\n                item.value if isinstance(item, Argument) else item, program, lineno\n            )\n            for item in value\n        ]", "        for i, item in enumerate(value):\n            value[i] = self.value_type.clean(\n                item.value if isinstance(item, Argument) else item, program, lineno\n            )\n        return value", {"C01": "elementwise", "C20": "ListParameter.clean::pure"}),
+    ("missing-value-truthiness", CSVIO, "        if fill_value is not None:\n            data.mask = mask", "        if fill_value:\n            data.mask = mask", {"C03": "zero-is-a-value", "C17": "zero-is-a-value", "C02": "zero-is-a-value"}),
+    ("zero-weight-skipped", F, "        for weight, arr in zip(weights[1:], arrays[1:]):\n            result += arr * weight", "        for weight, arr in zip(weights[1:], arrays[1:]):\n            if weight == 0:\n                continue\n            result += arr * weight", {"C06": "union-of-masks", "C03": "FuzzyWeightedUnion.execute::return#1"}),
+    ("astype-nocopy-then-inplace", B, "        return sum(arrays) / len(arrays)", "        result = arrays[0].astype(float, copy=False)\n        for arr in arrays[1:]:\n            result += arr\n        result /= len(arrays)\n        return result", {"C09": "Mean.execute::inplace"}),
+    ("raw-argument-overwritten", PRG, "                        argument.value, self, lineno=argument.lineno\n                    )\n", "                        argument.value, self, lineno=argument.lineno\n                    )\n                    argument.value = value\n", {"C20": "raw-argument-overwritten"}),
+    ("cells-parsed-with-data-type", CSVIO, "values.append(float(row[idx]))", 'values.append(kwargs.get("DataType", float)(row[idx]))', {"C17": "cell-parse"}),
+    ("positive-check-after-cast", NCIO, "and data.min() < 0:", "and numpy.ma.array(data, dtype=data_type).min() < 0:", {"C18": "positive-check-on-file-values"}),
+    ("iter-modules-loader", PRG, "for info, name, _ in pkgutil.walk_packages(", "for info, name, _ in pkgutil.iter_modules(", {"C19": "loads-what-the-filter-admits"}),
+    ("conversion-per-node", PRG, "program_node = ProgramNode(convert_eems2_commands(program_node.commands), 3)", "program_node = ProgramNode([n if n.result_name else convert_eems2_commands([n])[0] for n in program_node.commands], 3)", {"C16": "whole-file"}),
+    ("string-token-excludes-newlines", PSR, """@TOKEN(r'("(\\\\.|[^"\\\\])*")|(\\'(\\\\.|[^\\'\\\\])*\\')')""", """@TOKEN(r'("(\\\\.|[^"\\\\\\r\\n])*")|(\\'(\\\\.|[^\\'\\\\\\r\\n])*\\')')""", {"C15": "read-back"}),
 ]
 
 # behaviour-preserving rewrites: (id, file, old, new, [properties that must stay silent])
